@@ -60,11 +60,18 @@ I(v) == [t |-> "i", v |-> v]       \* int
 L(v) == [t |-> "l", v |-> v]       \* []string
 Q(v) == [t |-> "q", v |-> v]       \* float64 given in quarters (v/4)
 P(v) == [t |-> "p", v |-> v]       \* abstract path for readFile: "" | "file" | "dir" | "missing"
+N(v) == [t |-> "n", v |-> v]       \* an int NAMED by its decimal text: magnitudes beyond TLC's 32-bit integers
+ENV(v) == [t |-> "env", v |-> v]   \* the process environment (name -> value string): the implicit argument of getenv / expandEnv
 Undef == [t |-> "undef"]           \* outside the domain: an error or any value, never a crash
 Err   == [t |-> "err"]             \* a template error is the documented outcome
 OneOf(vs) == [t |-> "oneof", v |-> vs]   \* the documentation leaves it open: any of these strings
 Std   == [t |-> "std"]             \* decided by the Go namesake alone (harness computes it)
 Shape == [t |-> "shape"]           \* only shape invariants (ShapeOK) and totality
+\* "equal integer arithmetic over all their arguments" for operands TLC cannot hold: the value of the LEFT fold
+\* ((a op b) op c) ... in exact integers, DEFINED whenever every intermediate of that left fold is an int64 and
+\* no divisor is zero (then no evaluation order may be visible); otherwise outside the domain (like Undef).
+\* The exact fold is computed by drivers/funclib with math/big (independent of template_funcs).
+Fold64 == [t |-> "fold64"]
 
 ---------------------------------------------------------------------------
 (* rune alphabet and class table *)
@@ -322,6 +329,7 @@ Expect(f, a) ==
     [] Table[f].oracle = "spec+std" ->
          \* "equal their Go standard-library namesakes with the subject string as last argument"
          StdCall(f, IF Table[f].rot THEN <<Last(x)>> \o Front(x) ELSE x)
+    [] \E i \in DOMAIN a : a[i].t = "n" -> Fold64
     [] f = "exported"     -> CaseFirst(Exported, x[1])
     [] f = "firstIsLower" -> B(FirstIsLower(x[1]))
     [] f = "firstUpper"   -> CaseFirst(FirstUpper, x[1])
@@ -368,6 +376,7 @@ ShapeOK(f, a, r) ==
 Accepts(f, a, r) ==
   LET e == Expect(f, a) IN
   CASE e.t = "undef" -> TRUE
+    [] e.t = "fold64" -> TRUE                \* decided by the harness against the exact left fold
     [] e.t = "std"   -> TRUE                 \* decided by the harness against the namesake
     [] e.t = "shape" -> r.t # "err" /\ ShapeOK(f, a, r)
     [] e.t = "err"   -> r.t = "err"
@@ -472,6 +481,7 @@ ImplCall(f, a) ==
     [] f = "firstUpper"   -> S(FirstUpper(x[1]))       \* xstrings.FirstRuneToUpper (third party; not modelled deeper)
     [] f = "firstLower"   -> S(FirstLower(x[1]))
     [] f = "readFile"     -> CReadFile(x[1])
+    [] \E i \in DOMAIN a : a[i].t = "n" -> Fold64        \* same left fold, in int64 (functions.go:47-107)
     [] f \in {"add", "sub", "mul", "div", "mod", "min", "incr", "decr"} -> ImplArith(f, x)
     [] Table[f].oracle = "std" -> Std
     [] Table[f].oracle = "shape" -> Shape
